@@ -82,6 +82,7 @@ type GenOpts struct {
 	DataOnly    bool    // generate data-only sessions against a stored index
 	GapRewrite  bool    // rewrite into gaps freed by deletes
 	VarTypes    bool
+	Types       []string // when set, data channel types are drawn from this list only
 	MaxChunks   int
 	PersistOpts []int64
 	// ForceAlwaysPersist makes every session use always-persist (C02 durable class).
@@ -141,6 +142,9 @@ func Gen(r *prng.R, o GenOpts) *Script {
 			dt := prng.Pick(r, FixedTypes)
 			if o.VarTypes && r.Chance(1, 4) {
 				dt = prng.Pick(r, VarTypes)
+			}
+			if len(o.Types) > 0 {
+				dt = prng.Pick(r, o.Types)
 			}
 			grp.Data = append(grp.Data, ChanSpec{Key: key, Name: fmt.Sprintf("d%d", key), DT: dt, Index: grp.Index.Key})
 			key++
@@ -539,8 +543,12 @@ func (g *gen) deleteOp() (Op, bool) {
 		}
 	}
 	if !refused {
+		idxRemoved := 0
 		for _, k := range chans {
-			g.sim.Delete(k, a, b)
+			n := g.sim.Delete(k, a, b)
+			if k == grp.Index.Key {
+				idxRemoved = n
+			}
 		}
 		if hasIdx {
 			for _, s := range g.sess {
@@ -548,7 +556,11 @@ func (g *gen) deleteOp() (Op, bool) {
 					s.cut = true
 				}
 			}
-			if len(chans) == len(grp.Data)+1 && b-a > 8 {
+			// A range is only writable again when the delete removed at least one index
+			// sample: a range that lies between two consecutive samples of a stored
+			// domain stays inside that domain's time range, and a writer opened there
+			// is (rightly) refused as overlapping existing data.
+			if len(chans) == len(grp.Data)+1 && b-a > 8 && idxRemoved > 0 {
 				g.gaps[gi] = append(g.gaps[gi], [2]int64{a, b})
 			}
 		}
